@@ -109,10 +109,13 @@ def single_threaded_edges(world, E):
             if reach_create and all(f.dominates(c, t) for t in reach_create):
                 out.add((f.name, c.id))
                 why[(f.name, c.id)] = "before thread creation in %s" % f.name
-        joins = list(f.calls("pthread_join"))
+        # join points: direct pthread_join calls and calls of helpers that join (e.g. a static 'join and forget the handle' helper)
+        joins = [c for c in f.calls() if c.callee == "pthread_join" or (c.callee in P.functions and c.callee in joiners) or
+                 (c.callee in P.functions and P.functions[c.callee].blocks and P.reachable_functions([c.callee]) & joiners)]
+        join_ids = {c.id for c in joins}
         if joins:
             for c in f.calls():
-                if not c.callee or c.callee == "pthread_join":
+                if not c.callee or c.id in join_ids:
                     continue
                 ok = True
                 for j in joins:
